@@ -342,7 +342,8 @@ def run_spec(args: dict, sandbox: str) -> dict:
         "probes": probes,
         "states": states,
         "nontrivial_keys": states if applied else [],
-        "fingerprint": rng.fingerprint(log),
+        # (diagnostics may quote the document path: the per-run sandbox name - it holds a process id - stays out of the event log)
+        "fingerprint": rng.fingerprint([ln.replace(sandbox, "<sandbox>") for ln in log]),
         "sim_time": 0.0,
         "sample": {"mode": spec.get("mode"), "applied": applied[:3], "channel": ch, "meta": spec["meta"], "outcome": outcome, "exit": res["exit_code"], "n_diag": None if diags is None else len(diags), "payload_bytes": len(data), "steps": budget.count},
         "log": log if args.get("want_log") else None,
